@@ -41,6 +41,14 @@ CORPUS = [
     # benign
     Mut('c01-benign-rename', TL, K1, 'partials[node] = mats[..., left, :, :, :] @ partials[left] * (mats[..., right, :, :, :] @ partials[right])',
         'p_l = mats[..., left, :, :, :] @ partials[left]\np_r = mats[..., right, :, :, :] @ partials[right]\npartials[node] = p_r * p_l', benign=True),
+    Mut('c01-root-zero-inserted-in-the-middle', 'torchtree/evolution/tree_likelihood.py', '', "                    branch_lengths,\n                    torch.zeros(\n                        sample_shape + (1,),\n                        dtype=branch_lengths.dtype,\n                        device=branch_lengths.device,\n                    ),\n                ),",
+        "                    branch_lengths[..., :-1],\n                    torch.zeros(\n                        sample_shape + (1,),\n                        dtype=branch_lengths.dtype,\n                        device=branch_lengths.device,\n                    ),\n                    branch_lengths[..., -1:],\n                ),",
+        expect=[('C01.B', 'unrooted::branch-vector-is-lengths-then-one-zero')], mode='text'),
+    Mut('c01-benign-zeros-like-slice', 'torchtree/evolution/tree_likelihood.py', '', "                    torch.zeros(\n                        sample_shape + (1,),\n                        dtype=branch_lengths.dtype,\n                        device=branch_lengths.device,\n                    ),\n                ),",
+        "                    torch.zeros(\n                        sample_shape + (1,),\n                        dtype=branch_lengths.dtype,\n                    ),\n                ),", benign=True, mode='text'),
+    Mut('c01-patterns-filtered', 'torchtree/evolution/site_pattern.py', '', "    pattern_ordering = sorted(list(count_dict.keys()))", "    count_dict = {k: v for k, v in count_dict.items() if len(set(k)) > 1}\n    pattern_ordering = sorted(list(count_dict.keys()))",
+        expect=[('C01.W', 'compress::every-distinct-column-is-kept-with-its-count')], mode='text'),
+    Mut('c01-clock-rate-added-not-multiplied', 'torchtree/evolution/tree_likelihood.py', '', "                bls = self.clock_model.rates * branch_lengths\n", "                bls = self.clock_model.rates + branch_lengths\n", expect=[('C01.B', 'clock::rate-times-time-per-branch')], mode='text'),
 ]
 for m in CORPUS:
     if m.id == 'c01-tipstate-guard':
